@@ -8,6 +8,7 @@ import JSight.Model.Location
 import JSight.Model.OMap
 import JSight.Model.AllOf
 import JSight.Model.Registry
+import JSight.Model.Param
 /-!
 Line-protocol driver around the hand-written models (core-only imports, so it links as a `lean_exe`).
 One request per line `op hexarg…`; one response line per request; the line `flush` flushes stdout.
@@ -90,6 +91,16 @@ def handle (line : String) : String :=
     | .ok (st, _) =>
       "ok " ++ String.intercalate " " (st.map fun (n, sc) =>
         toString n ++ "=" ++ String.intercalate "," (sc.kids.map fun p => toString p.key ++ "/" ++ (match p.from_ with | some b => toString b | none => "-")))
+  | "param" :: k :: raws =>
+    -- param <kind index> <raw parameter hex>… → ok name=hex,… | hex,…   |  err defined <name>  |  err incorrect
+    match k.toNat?.bind (Gen.Kind.all[·]?), (raws.filter (· != "")).mapM fun h => if h == "-" then some [] else fromHex h with
+    | some kind, some rs =>
+      match Param.appendAll kind {} rs with
+      | .ok p => "ok " ++ String.intercalate "," (p.named.map fun (n, v) => n ++ "=" ++ toHexArg v) ++ " | " ++
+          String.intercalate "," (p.unnamed.map toHexArg)
+      | .error (.alreadyDefined n) => "err defined " ++ n
+      | .error .incorrect => "err incorrect"
+    | _, _ => "bad-arg"
   | "reg" :: args =>
     -- args: <coll>:<key> … with coll ∈ t e s g m u i ; ids are positions
     let collOf (c : String) : Option Reg.Coll := match c with
